@@ -705,3 +705,542 @@ func subqueryNeedsShardedTable(c *Ctx) bool {
 	}
 	return true
 }
+
+// ---------------------------------------------------------------------------------------
+// C08 — Mycat-compatible placement: Java's string units
+
+func init() {
+	register("C08", "Clause decided (unit consistency, necessary for the statement on non-ASCII keys; the hash arithmetic and the partition tables are values and NOT decided): Mycat's PartitionByString and PartitionByMurmurHash are defined on Java strings, whose length() and charAt() count UTF-16 code units. (utf16) in router.stringHash and util.MurmurHash.HashUnencodedChars the sequence whose elements enter the hash is, by def-use through every call site, the result of utf16.Encode — a []rune conversion (code points) differs from Java for characters outside the Basic Multilingual Plane, raw bytes differ for every multi-byte character; (bounds) in MycatPartitionStringShard.FindForKey the length from which the relative hash-slice bounds are computed is the length of the very sequence that stringHash indexes (a byte length combined with an index over characters selects other characters than Mycat for any multi-byte key).",
+		ruleC08)
+}
+
+// seqUnits classifies the unit of a character sequence value: "utf16", "runes", "bytes", or "" (unknown).
+func seqUnits(c *Ctx, v ssa.Value, depth int) string {
+	v = stripValue(resolveLoad(stripValue(v)))
+	switch x := v.(type) {
+	case *ssa.Call:
+		if f := staticCallee(&x.Call); f != nil && f.Pkg != nil && f.Pkg.Pkg.Path() == "unicode/utf16" && f.Name() == "Encode" {
+			return "utf16"
+		}
+	case *ssa.Convert:
+		if isStringType(x.X.Type()) {
+			if s, ok := x.Type().Underlying().(*types.Slice); ok {
+				if b, ok := s.Elem().Underlying().(*types.Basic); ok {
+					switch b.Kind() {
+					case types.Int32:
+						return "runes"
+					case types.Uint8:
+						return "bytes"
+					}
+				}
+			}
+		}
+	case *ssa.Parameter:
+		if isStringType(x.Type()) {
+			return "bytes"
+		}
+		if depth == 0 {
+			return ""
+		}
+		fn := x.Parent()
+		idx := -1
+		for i, p := range fn.Params {
+			if p == x {
+				idx = i
+			}
+		}
+		units := ""
+		for _, s := range c.callSites(func(cc *ssa.CallCommon) bool { return callsFunc(cc, fn) }) {
+			if c.IsMockFunc(s.Fn) {
+				continue
+			}
+			cc := callCommon(s.In)
+			if idx < 0 || idx >= len(cc.Args) {
+				return ""
+			}
+			u := seqUnits(c, cc.Args[idx], depth-1)
+			if units == "" {
+				units = u
+			} else if units != u {
+				return "mixed"
+			}
+		}
+		return units
+	}
+	if isStringType(v.Type()) {
+		return "bytes"
+	}
+	return ""
+}
+
+func ruleC08(c *Ctx, r *Report) {
+	const rule = "MP-C08"
+	r.floor(rule, 3)
+	sh := c.Func("proxy/router", "stringHash")
+	mm := c.Method("util", "MurmurHash", "HashUnencodedChars")
+	find := c.Method("proxy/router", "MycatPartitionStringShard", "FindForKey")
+	if sh == nil || mm == nil || find == nil {
+		r.undecided(rule, "proxy/router", "anchor", "-", "stringHash / MurmurHash.HashUnencodedChars / MycatPartitionStringShard.FindForKey not found")
+		return
+	}
+	for _, fn := range []*ssa.Function{sh, mm} {
+		name := c.FuncName(fn)
+		units := map[string]bool{}
+		var at ssa.Instruction
+		allInstrs(fn, func(in ssa.Instruction) {
+			switch x := in.(type) {
+			case *ssa.IndexAddr:
+				units[seqUnits(c, x.X, 2)] = true
+				at = in
+			case *ssa.Lookup: // s[i] on a string
+				if isStringType(x.X.Type()) {
+					units["bytes"] = true
+					at = in
+				}
+			}
+		})
+		switch {
+		case len(units) == 1 && units["utf16"]:
+			r.ok(rule, name, "units:hash-over-utf16", c.Pos(at.Pos()), "the characters that enter the hash are UTF-16 code units (utf16.Encode), as in Java")
+		case len(units) == 0:
+			r.undecided(rule, name, "units:hash-over-utf16", c.Pos(fn.Pos()), "no indexed character sequence found")
+		default:
+			var us []string
+			for u := range units {
+				if u == "" {
+					u = "unknown"
+				}
+				us = append(us, u)
+			}
+			sortStrings(us)
+			r.viol(rule, name, "units:hash-over-utf16", c.Pos(at.Pos()), "the hash runs over "+strings.Join(us, "/")+" of the key, Mycat's over Java chars (UTF-16 code units): keys with characters outside the Basic Multilingual Plane (for bytes: every multi-byte character) hash differently and are placed in another database than Mycat placed them")
+		}
+	}
+	// bounds
+	{
+		name := c.FuncName(find)
+		calls := callsIn(find, func(cc *ssa.CallCommon) bool { return callsFunc(cc, sh) })
+		if len(calls) != 1 {
+			r.undecided(rule, name, "units:bounds-in-same-units", c.Pos(find.Pos()), "expected one stringHash call")
+			return
+		}
+		cc := callCommon(calls[0])
+		seq := cc.Args[0]
+		// what the callee indexes, seen from this argument
+		calleeUnits := ""
+		allInstrs(sh, func(in ssa.Instruction) {
+			if ia, ok := in.(*ssa.IndexAddr); ok {
+				base := stripValue(resolveLoad(stripValue(ia.X)))
+				if base == ssa.Value(sh.Params[0]) {
+					calleeUnits = "arg"
+				} else if cv, ok := base.(*ssa.Convert); ok && stripValue(cv.X) == ssa.Value(sh.Params[0]) {
+					calleeUnits = seqUnits(c, cv, 0)
+				} else if call, ok := base.(*ssa.Call); ok {
+					calleeUnits = seqUnits(c, call, 0)
+				}
+			}
+		})
+		good, n := true, 0
+		var lens []ssa.Value
+		var collect func(v ssa.Value, d int)
+		collect = func(v ssa.Value, d int) {
+			v = stripValue(v)
+			if d == 0 {
+				return
+			}
+			switch x := v.(type) {
+			case *ssa.Phi:
+				for _, e := range x.Edges {
+					collect(e, d-1)
+				}
+			case *ssa.BinOp:
+				collect(x.X, d-1)
+				collect(x.Y, d-1)
+			case *ssa.Call:
+				if bi, ok := x.Call.Value.(*ssa.Builtin); ok && bi.Name() == "len" {
+					lens = append(lens, x.Call.Args[0])
+				}
+			}
+		}
+		for _, a := range cc.Args[1:] {
+			collect(a, 5)
+		}
+		for _, l := range lens {
+			n++
+			if calleeUnits == "arg" {
+				if !sameVal(l, seq) {
+					good = false
+				}
+			} else {
+				// the callee converts its argument before indexing: a length taken here is in other units unless both are bytes
+				if !(isStringType(l.Type()) && calleeUnits == "bytes") {
+					good = false
+				}
+			}
+		}
+		switch {
+		case n == 0:
+			r.undecided(rule, name, "units:bounds-in-same-units", c.Pos(calls[0].Pos()), "no length feeds the hash-slice bounds")
+		case good:
+			r.ok(rule, name, "units:bounds-in-same-units", c.Pos(calls[0].Pos()), "the relative bounds are computed from the length of the sequence stringHash indexes")
+		default:
+			r.viol(rule, name, "units:bounds-in-same-units", c.Pos(calls[0].Pos()), "the relative hash-slice bounds are computed from a length in other units (bytes of the string) than the sequence stringHash indexes ("+calleeUnits+"): for a key with multi-byte characters other characters are hashed than Mycat hashes, so the key is looked for in another database")
+		}
+	}
+}
+
+// ---------------------------------------------------------------------------------------
+// C01 — pruning on the sharding column drops only tables that cannot hold a matching row (shape of the range pruning)
+
+func init() {
+	register("C01", "Clauses decided (shape of the comparison pruning; which interval a key value falls in is a value question and is NOT decided): in plan.getFindTableIndexesFunc's route function (a) a condition on another column, `<>`, and any ordering comparison on a non-range shard return Rule.GetSubTableIndexes() unmodified; (b) `=` returns exactly the table of FindTableIndex(v); (c) for a range shard `<`/`<=` return makeList(GetFirstTableIndex(), i+1) and `>`/`>=` return makeList(FindTableIndex(v), GetLastTableIndex()+1): the table of the key itself is always kept, except that for `<` — and only on the `op == LT` edge — i may be adjustShardIndex(…), which (d) lowers the index by one only on the true edge of RangeShard.EqualStart(value, index); (e) no RangeShard implementation's EqualStart is the tautology `FindForKey(key) == index` (index IS FindForKey(key) at the only call site): its accepting paths must depend on something else — the interval's start boundary or the key's position inside the period — otherwise every `<` drops the table that holds the key's own period although rows earlier in that period match. AND/OR/NOT composition, IN/BETWEEN lists, joins and the interval arithmetic of each rule type are not covered.",
+		ruleC01)
+}
+
+func ruleC01(c *Ctx, r *Report) {
+	const rule = "MP-C01"
+	r.floor(rule, 10)
+	outer := c.Func(planRel, "getFindTableIndexesFunc")
+	adjust := c.Func(planRel, "adjustShardIndex")
+	makeList := c.Func(planRel, "makeList")
+	mSub := c.IfaceMethod("proxy/router", "Rule", "GetSubTableIndexes")
+	mFind := c.IfaceMethod("proxy/router", "Rule", "FindTableIndex")
+	mFirst := c.IfaceMethod("proxy/router", "Rule", "GetFirstTableIndex")
+	mLast := c.IfaceMethod("proxy/router", "Rule", "GetLastTableIndex")
+	mEqStart := c.IfaceMethod("proxy/router", "RangeShard", "EqualStart")
+	opPkg := c.Pkg("parser/opcode")
+	if outer == nil || adjust == nil || makeList == nil || mSub == nil || mFind == nil || mFirst == nil || mLast == nil || mEqStart == nil || opPkg == nil {
+		r.undecided(rule, planRel, "anchor", "-", "getFindTableIndexesFunc / adjustShardIndex / makeList / Rule methods / RangeShard.EqualStart / opcode not all found")
+		return
+	}
+	opVal := func(n string) int64 {
+		if cst, ok := opPkg.Pkg.Scope().Lookup(n).(*types.Const); ok {
+			if v, ok := constantInt64(cst); ok {
+				return v
+			}
+		}
+		return -1
+	}
+	ltV := opVal("LT")
+	var fn *ssa.Function
+	for _, f := range c.Funcs {
+		if f.Parent() == outer {
+			fn = f
+		}
+	}
+	if fn == nil || ltV < 0 {
+		r.undecided(rule, c.FuncName(outer), "route-func", c.Pos(outer.Pos()), "route closure or opcode.LT not found")
+		return
+	}
+	name := c.FuncName(outer)
+	isCallTo := func(v ssa.Value, m *types.Func) *ssa.Call {
+		call, ok := stripValue(resolveLoad(stripValue(v))).(*ssa.Call)
+		if ok && callsIfaceMethod(&call.Call, m) {
+			return call
+		}
+		return nil
+	}
+	isFindIdx := func(v ssa.Value) bool {
+		ex, ok := stripValue(v).(*ssa.Extract)
+		if !ok || ex.Index != 0 {
+			return false
+		}
+		call, ok := ex.Tuple.(*ssa.Call)
+		return ok && callsIfaceMethod(&call.Call, mFind)
+	}
+	plusOne := func(v ssa.Value) ssa.Value {
+		b, ok := stripValue(v).(*ssa.BinOp)
+		if !ok || b.Op != token.ADD {
+			return nil
+		}
+		if k, ok := constInt(b.Y); ok && k == 1 {
+			return b.X
+		}
+		return nil
+	}
+	// LT edges: `*op == LT` true
+	var ltEdges []CondEdge
+	allInstrs(fn, func(in ssa.Instruction) {
+		b, ok := in.(*ssa.BinOp)
+		if !ok || b.Op != token.EQL {
+			return
+		}
+		if k, ok := constInt(b.Y); ok && k == ltV {
+			for _, e := range condEdges(b) {
+				if e.Val {
+					ltEdges = append(ltEdges, e)
+				}
+			}
+		}
+	})
+	nret := 0
+	for _, ret := range returnsOf(fn) {
+		isNil, known := returnsNilError(ret)
+		if known && !isNil {
+			continue
+		}
+		nret++
+		cons := fmt.Sprintf("route:return#%d", nret)
+		v := stripValue(ret.Results[0])
+		switch {
+		case isCallTo(v, mSub) != nil:
+			r.ok(rule, name, cons, c.Pos(ret.Pos()), "all tables of the rule (no pruning)")
+		default:
+			if sl, ok := v.(*ssa.Slice); ok {
+				if es := variadicElems(sl); len(es) == 1 && isFindIdx(es[0]) {
+					r.ok(rule, name, cons, c.Pos(ret.Pos()), "exactly the table FindTableIndex(v) names")
+					continue
+				}
+			}
+			call, ok := v.(*ssa.Call)
+			if !ok || !callsFunc(&call.Call, makeList) || len(call.Call.Args) != 2 {
+				r.viol(rule, name, cons, c.Pos(ret.Pos()), "the route returned here is neither all tables, the key's own table, nor a makeList range: tables may be dropped without a reason the rule can see")
+				continue
+			}
+			lo, hi := call.Call.Args[0], call.Call.Args[1]
+			hiBase := plusOne(hi)
+			switch {
+			case isCallTo(lo, mFirst) != nil && hiBase != nil:
+				// upper end: the key's table, or the adjusted index on the LT edge only
+				good, why := true, ""
+				for _, l := range phiLeaves(hiBase) {
+					if isFindIdx(l) {
+						continue
+					}
+					if ac, ok := l.(*ssa.Call); ok && callsFunc(&ac.Call, adjust) {
+						if len(ltEdges) == 0 || !edgesDominate(fn, ltEdges, ac.Block()) {
+							good, why = false, "the index is adjusted downwards although the operator is not known to be `<`: for `<=` the table of the key itself is dropped"
+						}
+						if len(ac.Call.Args) != 3 || !isFindIdx(ac.Call.Args[2]) {
+							good, why = false, "adjustShardIndex is not applied to the key's own table index"
+						}
+						continue
+					}
+					good, why = false, "the upper end of the range is not the key's own table index"
+				}
+				if good {
+					r.ok(rule, name, cons, c.Pos(ret.Pos()), "[first .. table of the key], lowered by adjustShardIndex only on the `<` edge")
+				} else {
+					r.viol(rule, name, cons, c.Pos(ret.Pos()), why)
+				}
+			case isFindIdx(stripValue(lo)) && hiBase != nil && isCallTo(hiBase, mLast) != nil:
+				r.ok(rule, name, cons, c.Pos(ret.Pos()), "[table of the key .. last]")
+			default:
+				r.viol(rule, name, cons, c.Pos(ret.Pos()), "a range route that does not keep the table of the key itself (expected makeList(first, idx+1) or makeList(idx, last+1))")
+			}
+		}
+	}
+	if nret < 6 {
+		r.undecided(rule, name, "route:returns", c.Pos(fn.Pos()), fmt.Sprintf("expected the route function's 7 success returns, found %d", nret))
+	}
+	// (d) adjustShardIndex
+	{
+		aname := c.FuncName(adjust)
+		idxP := ssa.Value(adjust.Params[2])
+		n := 0
+		for _, ret := range returnsOf(adjust) {
+			n++
+			cons := fmt.Sprintf("adjust:return#%d", n)
+			v := stripValue(ret.Results[0])
+			if v == idxP {
+				r.ok(rule, aname, cons, c.Pos(ret.Pos()), "index unchanged")
+				continue
+			}
+			b, ok := v.(*ssa.BinOp)
+			k, isK := int64(0), false
+			if ok {
+				k, isK = constInt(b.Y)
+			}
+			if ok && b.Op == token.SUB && stripValue(b.X) == idxP && isK && k == 1 {
+				dom := false
+				allInstrs(adjust, func(in ssa.Instruction) {
+					call, ok := in.(*ssa.Call)
+					if ok && callsIfaceMethod(&call.Call, mEqStart) && dominatedByCond(ret, call, true) {
+						dom = true
+					}
+				})
+				if dom {
+					r.ok(rule, aname, cons, c.Pos(ret.Pos()), "index-1 only on the true edge of EqualStart(value, index)")
+				} else {
+					r.viol(rule, aname, cons, c.Pos(ret.Pos()), "the index is lowered without the key being known to equal the interval's start: `<` drops the table of the key's own interval")
+				}
+				continue
+			}
+			r.viol(rule, aname, cons, c.Pos(ret.Pos()), "adjustShardIndex returns something other than index or index-1")
+		}
+	}
+	// (f) `value op column` is routed with the mirrored operator: inverseOperator maps GT<->LT, GE<->LE
+	if inv := c.Func(planRel, "inverseOperator"); inv != nil {
+		want := map[int64]int64{opVal("GT"): opVal("LT"), opVal("GE"): opVal("LE"), opVal("LT"): opVal("GT"), opVal("LE"): opVal("GE")}
+		got := map[int64]int64{}
+		p0 := ssa.Value(inv.Params[0])
+		allInstrs(inv, func(in ssa.Instruction) {
+			b, ok := in.(*ssa.BinOp)
+			if !ok || b.Op != token.EQL || stripValue(b.X) != p0 {
+				return
+			}
+			k, ok := constInt(b.Y)
+			if !ok {
+				return
+			}
+			for _, e := range condEdges(b) {
+				if !e.Val {
+					continue
+				}
+				blk := e.If.Block().Succs[e.Succ]
+				if ret, ok := blk.Instrs[len(blk.Instrs)-1].(*ssa.Return); ok {
+					if v, ok := constInt(ret.Results[0]); ok {
+						got[k] = v
+					}
+				}
+			}
+		})
+		good := true
+		for k, v := range want {
+			if got[k] != v {
+				good = false
+			}
+		}
+		// every other operator is returned unchanged
+		for _, ret := range returnsOf(inv) {
+			if _, isConst := constInt(ret.Results[0]); !isConst && stripValue(ret.Results[0]) != p0 {
+				good = false
+			}
+		}
+		if good {
+			r.ok(rule, c.FuncName(inv), "inverse:table", c.Pos(inv.Pos()), "GT<->LT and GE<->LE, every other operator unchanged")
+		} else {
+			r.viol(rule, c.FuncName(inv), "inverse:table", c.Pos(inv.Pos()), "inverseOperator does not mirror the ordering comparisons (GT<->LT, GE<->LE): `5 < col` is pruned as if it were `col < 5`")
+		}
+	} else {
+		r.undecided(rule, planRel+".inverseOperator", "inverse:table", "-", "not found")
+	}
+	// (e) EqualStart is not FindForKey(key) == index
+	rsT := c.NamedType("proxy/router", "RangeShard")
+	if rsT == nil {
+		r.undecided(rule, "proxy/router.RangeShard", "eqstart:anchor", "-", "RangeShard not found")
+		return
+	}
+	iface, _ := rsT.Underlying().(*types.Interface)
+	ne := 0
+	for _, fnE := range c.Funcs {
+		if fnE.Name() != "EqualStart" || fnE.Signature.Recv() == nil || c.IsMockFunc(fnE) || len(fnE.Blocks) == 0 {
+			continue
+		}
+		if iface == nil || !types.Implements(fnE.Signature.Recv().Type(), iface) {
+			continue
+		}
+		recvN := namedOf(fnE.Signature.Recv().Type())
+		if recvN == nil {
+			continue
+		}
+		ne++
+		ename := c.FuncName(fnE)
+		// the function FindForKey returns
+		var keyFn *ssa.Function
+		if ff := c.Method("proxy/router", recvN.Obj().Name(), "FindForKey"); ff != nil {
+			for _, ret := range returnsOf(ff) {
+				for _, res := range ret.Results {
+					if call, ok := stripValue(res).(*ssa.Call); ok {
+						keyFn = staticCallee(&call.Call)
+					}
+					if ex, ok := stripValue(res).(*ssa.Extract); ok {
+						if call, ok := ex.Tuple.(*ssa.Call); ok {
+							keyFn = staticCallee(&call.Call)
+						}
+					}
+				}
+			}
+		}
+		idxP := ssa.Value(fnE.Params[2])
+		trivial := func(cond ssa.Value) bool {
+			cv := stripValue(cond)
+			if u, ok := cv.(*ssa.UnOp); ok && u.Op == token.NOT {
+				cv = stripValue(u.X)
+			}
+			// "could the key be read at all" flags (second results of calls) say nothing about where the key lies
+			if ex, ok := cv.(*ssa.Extract); ok && ex.Index > 0 {
+				return true
+			}
+			b, ok := cv.(*ssa.BinOp)
+			if !ok {
+				return false
+			}
+			// err != nil / err == nil of the key function
+			if isNilConst(b.X) || isNilConst(b.Y) {
+				return true
+			}
+			if b.Op != token.EQL && b.Op != token.NEQ {
+				return false
+			}
+			x, y := stripValue(b.X), stripValue(b.Y)
+			if y != idxP {
+				x, y = y, x
+			}
+			if y != idxP {
+				return false
+			}
+			ex, ok := x.(*ssa.Extract)
+			if !ok {
+				return false
+			}
+			call, ok := ex.Tuple.(*ssa.Call)
+			return ok && keyFn != nil && staticCallee(&call.Call) == keyFn
+		}
+		taut := false
+		nacc := 0
+		for _, ret := range returnsOf(fnE) {
+			vals, zero := retValues(ret, 0)
+			if zero {
+				continue
+			}
+			may := false
+			nonTrivialValue := false
+			for _, v := range vals {
+				for _, l := range phiLeaves(v) {
+					if b, ok := constBool(l); ok {
+						if b {
+							may = true
+						}
+						continue
+					}
+					may = true
+					if !trivial(l) {
+						nonTrivialValue = true
+					}
+				}
+			}
+			if !may {
+				continue
+			}
+			nacc++
+			// conditions on the way: any If whose edge dominates the return and whose condition is not trivial
+			nonTrivialGuard := false
+			for _, blk := range fnE.Blocks {
+				iff, ok := blk.Instrs[len(blk.Instrs)-1].(*ssa.If)
+				if !ok || trivial(iff.Cond) {
+					continue
+				}
+				for succ := 0; succ < 2; succ++ {
+					if edgeDominates(fnE, blk, succ, ret.Block()) {
+						nonTrivialGuard = true
+					}
+				}
+			}
+			if !nonTrivialValue && !nonTrivialGuard {
+				taut = true
+			}
+		}
+		switch {
+		case nacc == 0:
+			r.ok(rule, ename, "eqstart:not-a-tautology", c.Pos(fnE.Pos()), "never answers true: `<` never drops the key's own table")
+		case taut:
+			r.viol(rule, ename, "eqstart:not-a-tautology", c.Pos(fnE.Pos()), "EqualStart(key, index) is `FindForKey(key) == index`, and index IS FindForKey(key) where it is called: it answers true for every key, so `col < v` always drops the table of v's own period although rows of that period earlier than v match")
+		default:
+			r.ok(rule, ename, "eqstart:not-a-tautology", c.Pos(fnE.Pos()), "the answer depends on more than the key's table index (the interval's start / the key's position inside its period)")
+		}
+	}
+	if ne < 3 {
+		r.undecided(rule, "proxy/router", "eqstart:implementations", "-", fmt.Sprintf("expected the range/date EqualStart implementations, found %d", ne))
+	}
+}
